@@ -44,6 +44,15 @@ Theorem c20_category_literally_listed_refuted :
 Proof. exact category_literally_listed_refuted. Qed.
 Print Assumptions c20_category_literally_listed_refuted.
 
+(* ... and the result list is exact the other way: keys pairwise different, each declared by an action or router
+   of some node of the flow *)
+Theorem c20_results_exact : forall f,
+  NoDup (map rs_key (inspect_results f))
+  /\ forall s, In s (inspect_results f) ->
+        exists n i, In n (f_nodes f) /\ In i (node_result_infos n) /\ rs_key s = ri_key i.
+Proof. exact inspect_results_exact. Qed.
+Print Assumptions c20_results_exact.
+
 (* ---- waiting exits: the exit through which a resumed step leaves its wait node is listed *)
 Theorem c20_waiting_exits : forall A tr,
   forallb valid_flow A = true -> accepts A tr = true ->
@@ -93,3 +102,8 @@ Print Assumptions c20_saving_types_modelled.
 Theorem c20_save_sites_known : save_result_sites <> [] /\ forall s, In s save_result_sites -> site_known s = true.
 Proof. exact save_sites_known. Qed.
 Print Assumptions c20_save_sites_known.
+
+(* which savers save only under a non-empty result_name (hand-written in the model) is what the source says *)
+Theorem c20_guards_as_in_source : forall s, sv_guarded s = guarded_in_table s.
+Proof. exact sv_guarded_table. Qed.
+Print Assumptions c20_guards_as_in_source.
